@@ -19,6 +19,9 @@ FINDERS = [
     (r'LimitIter', 'find_limit_slice'),
     (r'Handles', 'find_handles_setops'),
     (r'::reindex|::gaps', 'find_reindex_ids'),
+    (r'SegmentationIter', 'find_segmentation'),
+    (r'utf8byte|create_milestones', 'find_utf8'),
+    (r'TextSelectionIter', 'find_index_walk'),
     (r'RelationMap|RelationBTreeMap|StoreCallbacks<(Annotation|AnnotationData|DataKey)>|StoreFor<(AnnotationData|DataKey)>|preremove__unindex|AnnotationDataSet::|Annotation::remove_data', 'find_store_consistency'),
     (r'init_textseliters|next_textselection|FindTextSelectionsIter|TextResource::iter|vx_inserted_c', 'find_related_text'),
 ]
